@@ -195,11 +195,7 @@ func readICCP(r binary.Reader, chunkLen uint32) ([]byte, error) {
 	}
 
 	// Extract ICCP.
-	data := make([]byte, ch.Length)
-	if _, err := io.ReadFull(r, data); err != nil {
-		return nil, err
-	}
-	return data, nil
+	return binary.ReadBytes(r, ch.Length)
 }
 
 func verifySignature(r binary.Reader) error {
